@@ -32,7 +32,7 @@ def actAt (c : Cfg) (pm : Bool) (e : Ev) : Act := act c pm e.path e.name e.isDir
 
 /-- the callback's return value unless it is SkipAll: a function of the event alone -/
 def flagOf (c : Cfg) (e : Ev) : Ret :=
-  if c.skip.contains e.name then .skipDir else
+  if e.isDir && c.skip.contains e.path then .skipDir else
   if e.isDir then
     let pslash := e.path ++ [slash]
     if c.pfx ≠ [] && !hasPrefix pslash c.pfx && !hasPrefix c.pfx pslash then .skipDir else
@@ -169,18 +169,15 @@ theorem cb_step (c : Cfg) (s : St) (e : Ev) (hs : s.truncated = false) :
 
 mutual
 theorem walkNode_eq_run (c : Cfg) : ∀ (t : Tree) (base : Bytes) (s : St), s.truncated = false →
-    noSkipFileNode c.skip t = true →
     walkNode c base s t = (run c s (visNode c base t), retOf (run c s (visNode c base t)))
-  | .file n, base, s, hs, hn => by
-    have hn' : n ∉ c.skip := by simpa [noSkipFileNode] using hn
+  | .file n, base, s, hs => by
     have hcb := cb_step c s ⟨base ++ n, n, false, true⟩ hs
     simp only at hcb
     unfold walkNode visNode
     rw [hcb, run_cons, run_nil]
-    have hf : flagOf c ⟨base ++ n, n, false, true⟩ = .nil := by simp [flagOf, hn']
+    have hf : flagOf c ⟨base ++ n, n, false, true⟩ = .nil := by simp [flagOf]
     rw [hf]; rfl
-  | .dir n cs, base, s, hs, hn => by
-    have hn' : noSkipFileList c.skip cs = true := by simpa [noSkipFileNode] using hn
+  | .dir n cs, base, s, hs => by
     have hcb := cb_step c s ⟨base ++ n, n, true, cs.isEmpty⟩ hs
     simp only at hcb
     unfold walkNode visNode
@@ -197,21 +194,18 @@ theorem walkNode_eq_run (c : Cfg) : ∀ (t : Tree) (base : Bytes) (s : St), s.tr
       cases fl with
       | nil =>
         simp only [if_true]
-        exact walkList_eq_run c cs (base ++ n ++ [slash]) s1 ht hn'
+        exact walkList_eq_run c cs (base ++ n ++ [slash]) s1 ht
       | skipDir =>
         simp [run_nil, retOf, ht]
       | skipAll => exact absurd hfl (flagOf_ne_skipAll c _)
 theorem walkList_eq_run (c : Cfg) : ∀ (ts : List Tree) (base : Bytes) (s : St), s.truncated = false →
-    noSkipFileList c.skip ts = true →
     walkList c base s ts = (run c s (visList c base ts), retOf (run c s (visList c base ts)))
-  | [], base, s, hs, _ => by
+  | [], base, s, hs => by
     unfold walkList visList
     simp [run_nil, retOf, hs]
-  | t :: ts, base, s, hs, hn => by
-    have hn' : noSkipFileNode c.skip t = true ∧ noSkipFileList c.skip ts = true := by
-      simpa [noSkipFileList] using hn
+  | t :: ts, base, s, hs => by
     unfold walkList visList
-    rw [walkNode_eq_run c t base s hs hn'.1, run_append]
+    rw [walkNode_eq_run c t base s hs, run_append]
     generalize run c s (visNode c base t) = s1
     cases ht : s1.truncated with
     | true =>
@@ -219,7 +213,7 @@ theorem walkList_eq_run (c : Cfg) : ∀ (ts : List Tree) (base : Bytes) (s : St)
       simp [retOf, ht]
     | false =>
       simp only [retOf, ht, Bool.false_eq_true, if_false]
-      exact walkList_eq_run c ts base s1 ht hn'.2
+      exact walkList_eq_run c ts base s1 ht
 end
 
 /-! ### (L2) freezing `pastMarker` over ascending events -/
